@@ -18,6 +18,7 @@ CONSTANTS
   BURNS = {}
   DELAMTS = {1}
   MAXDEL = 2
+  MAXUPD = 0
   MAXJAIL = 0
   MAXEPOCHS = 2
   MAXOPS = 5
